@@ -458,12 +458,13 @@ func (g *Gen) handleOp() bool {
 		// any op on a closed handle: closed class
 		switch r.Intn(4) {
 		case 0:
-			g.emit(-1, "HRead %d 3", s)
+			g.emit(-1, Pick(r, []string{"HRead %d 3", "HRead %d 0", "HReadAt %d 2 0"}), s)
 		case 1:
 			if h.dir {
 				return false
 			}
-			g.emit(-1, "HWrite %d 6161", s)
+			// the empty payload too: "closed" is decided before the bytes are looked at
+			g.emit(-1, Pick(r, []string{"HWrite %d 6161", "HWrite %d -", "HWriteString %d -", "HWriteString %d 62"}), s)
 		case 2:
 			g.emit(-1, "HSeek %d 0 0", s)
 		default:
@@ -516,7 +517,14 @@ func (g *Gen) handleOp() bool {
 		g.emit(-1, "HReadAt %d %d %d", s, r.Range(0, 7), r.Range(0, 12))
 	case 3, 4, 5:
 		if !h.canW {
-			return false
+			// refused by a read-only handle, the empty payload included (write(2) checks the
+			// descriptor's mode before the count)
+			if !h.canR || !r.Chance(1, 3) {
+				return false
+			}
+			g.emit(-1, "HWrite %d %s", s, hx(pay))
+			g.emit(-1, "HSeek %d 0 1", s)
+			return true
 		}
 		g.emit(-1, "HWrite %d %s", s, hx(pay))
 	case 6:
@@ -659,7 +667,7 @@ func (g *Gen) malformed() {
 		hs := g.liveHandles()
 		if len(hs) > 0 {
 			s := Pick(r, hs)
-			g.emit(-1, Pick(r, []string{"HRead %d 4", "HWrite %d 7a7a", "HReaddir %d 2", "HReaddirnames %d -1", "HTruncate %d 2", "HSeek %d -5 0", "HReadAt %d 3 -1", "HWriteAt %d 61 -1", "HTruncate %d -1", "HName %d", "HSync %d"}), s)
+			g.emit(-1, Pick(r, []string{"HRead %d 4", "HWrite %d 7a7a", "HReaddir %d 2", "HReaddirnames %d -1", "HTruncate %d 2", "HSeek %d -5 0", "HReadAt %d 3 -1", "HWriteAt %d 61 -1", "HTruncate %d -1", "HName %d", "HSync %d", "HWrite %d -", "HWriteString %d -", "HRead %d 0"}), s)
 			return
 		}
 		g.emit(-1, "Stat 2f")
